@@ -635,9 +635,54 @@ def _linform(e, fl, at, Lsym, depth=0):
         exprs = [n for k, n, _, _ in srcs if k == "expr"]
         if len(srcs) == 1 and len(exprs) == 1:
             return _linform(exprs[0], fl, srcs[0][2], Lsym, depth + 1)
+        if len(srcs) == 1 and srcs[0][0] in ("param", "free") and srcs[0][3]:
+            # a local alias of a parameter path: the symbol is the path itself
+            return {str(srcs[0][3]).replace('"', "'"): 1}
     if isinstance(e, (ast.Name, ast.Attribute, ast.Subscript)):
         return {txt.replace('"', "'"): 1}
     return None
+
+
+def r910(ctx):
+    """A verdict is not silently overwritten: every store `<path>.status = <code>` in the move
+    functions reaches the end of the function or a read of that status on some path that does not
+    pass another store to the same attribute. A verdict that is overwritten on every path (an
+    `elif` chain broken into two `if`s) lets a rejected path be reported with the later code."""
+    rid = "R-9.10"
+    n = 0
+    for m, q, f in ctx.tree.all_funcs([TIS]):
+        stores = [s for s in walk_local(f) if isinstance(s, ast.Assign) and len(s.targets) == 1 and isinstance(s.targets[0], ast.Attribute) and s.targets[0].attr == "status" and isinstance(s.value, ast.Constant) and isinstance(s.value.value, str)]
+        if not stores:
+            continue
+        cfg = cfg_of(f)
+        by_obj = {}
+        for s in stores:
+            by_obj.setdefault(ast.unparse(s.targets[0].value), []).append(s)
+        for obj, ss in by_obj.items():
+            reads = [x for x in walk_local(f) if isinstance(x, ast.Attribute) and x.attr == "status" and isinstance(x.ctx, ast.Load) and ast.unparse(x.value) == obj]
+            # the object itself escapes (argument, return value, element of a list): its status may be read elsewhere
+            uses = [x for x in walk_local(f) if isinstance(x, ast.Name) and isinstance(x.ctx, ast.Load) and x.id == obj.split(".")[0] and not isinstance(getattr(x, "_parent", None), ast.Attribute)]
+            for s in ss:
+                n += 1
+                others = {nd for o in ss if o is not s for nd in cfg.nodes_of(o)}
+                live = False
+                for sn in cfg.nodes_of(s):
+                    reach = cfg.reachable(sn, avoid=others)
+                    if cfg.exit.id in reach or getattr(cfg, "raise_", cfg.exit).id in reach:
+                        live = True
+                    for r in reads + uses:
+                        try:
+                            if any(rn.id in reach for rn in cfg.nodes_of(r)):
+                                live = True
+                        except Exception:
+                            pass
+                if live:
+                    ctx.ok(rid, s, f"{q}: verdict {s.value.value!r} on {obj} can reach a reader / the end of the function", nontrivial=False)
+                else:
+                    ctx.bad(rid, s, f"{q}: the verdict {s.value.value!r} stored on {obj} is overwritten on every path before anything reads it: a path that earned this rejection is reported with the later code (possibly 'ACC')",
+                            construct=f"{q}: dead verdict {obj}.status = {s.value.value!r}")
+    if n < 10:
+        raise AnalysisError(f"R-9.10: only {n} status stores found in the move functions (expected >= 10)")
 
 
 def r98(ctx):
@@ -823,6 +868,7 @@ def run(ctx):
     ctx.rule("R-9.7", "positional role agreement in the move functions: (start, end, middle, cross), (success, status), (shooting_point, idx, dek), (n_frames, new_segment), (accept, paths, status) are unpacked / passed at the callee's positions", floor=20)
     ctx.rule("R-9.8", "the tests that decide whether a path end still needs extension compare the frame's order parameter with elements of the ensemble's own interfaces (not a cap / sub-ensemble / modified copy)", floor=2)
     ctx.rule("R-9.9", "no `for` variable of the move / path code is read after its loop has ended", floor=15)
+    ctx.rule("R-9.10", "no verdict (`<path>.status = code`) of a move function is overwritten on every path before it is read", floor=10)
     ctx.rule("R-9.1", "every return of a move function pairs flag True with status 'ACC' and flag False with a non-'ACC' status", floor=30)
     ctx.rule("R-9.2", "the job's path is replaced only under status == 'ACC'; treat_output numbers only new paths", floor=4)
     ctx.rule("R-9.3", "frames reach engine sinks only as fresh copies; input paths are never extended in place", floor=13)
@@ -836,6 +882,7 @@ def run(ctx):
     ctx.attempt(r95, ctx)
     ctx.attempt(r96, ctx)
     ctx.attempt(r98, ctx)
+    ctx.attempt(r910, ctx)
     from .shared import stale_loop_variable
     ctx.attempt(stale_loop_variable, ctx, "R-9.9", [TIS, PATH], None, " (the move would test / store another frame or ensemble)")
     from .shared import role_agreement
@@ -843,6 +890,7 @@ def run(ctx):
 
 
 VARIANTS = [
+    B("c09-swap-zero-btx-overwritten", TIS, '    if path0.length == maxlen0:\n        path0.status = "BTX"\n    elif path0.length < 3:', '    if path0.length == maxlen0:\n        path0.status = "BTX"\n    if path0.length < 3:', "R-9.10", control=True, why="seeded C09_d"),
     B("c09-stale-interface-after-loop", TIS, "            cv.append(1.0 if intf_i <= path_max else 0.0)\n    cv.append(0.0)", "            pass\n    cv.append(1.0 if intf_i <= path_max else 0.0)\n    cv.append(0.0)", "R-9.9", control=True),
     B("c09-extender-cap-bound", TIS, '    interfaces = ens_set["interfaces"]\n    # ensemble[\'system\'] = source_seg.phasepoints[0].copy()', '    interfaces = list(ens_set["interfaces"])\n    if ens_set["mc_move"] == "wf":\n        interfaces[2] = ens_set["tis_set"].get("interface_cap", interfaces[2])\n    # ensemble[\'system\'] = source_seg.phasepoints[0].copy()', "R-9.8", control=True, why="seeded C09_c"),
     B("c09-extender-middle-bound", TIS, "    sh_pt = trial_path.phasepoints[-1].copy()\n    if interfaces[0] <= sh_pt.order[0] < interfaces[-1]:", "    sh_pt = trial_path.phasepoints[-1].copy()\n    wf_b = [interfaces[0], ens_set[\"tis_set\"].get(\"interface_cap\", interfaces[-1])]\n    if wf_b[0] <= sh_pt.order[0] < wf_b[-1]:", "R-9.8"),
